@@ -116,3 +116,25 @@ pub fn zz_tok_1c_token() {
     let r = d.decode::<minicbor::data::Token>();
     assert!(r.is_err());
 }
+
+#[cfg(feature = "alloc")]
+#[kani::proof]
+#[kani::unwind(5)]
+pub fn zz_skip_concrete_alloc() {
+    let buf = [0x82u8, 0x9f, 0xff, 0x00];
+    let mut d = Decoder::new(&buf[..]);
+    assert!(d.skip().is_ok());
+    assert!(d.position() == 4);
+}
+#[cfg(feature = "alloc")]
+#[kani::proof]
+#[kani::unwind(5)]
+pub fn zz_vec_stack_ops() {
+    let mut v: alloc::vec::Vec<Option<u64>> = alloc::vec::Vec::new();
+    let n: u8 = kani::any();
+    if n & 1 == 1 { v.push(None) }
+    if n & 2 == 2 { v.push(Some(3)) }
+    if let Some(Some(x)) = v.last_mut() { *x -= 1 }
+    while let Some(Some(0)) = v.last() { v.pop(); }
+    assert!(v.len() <= 2);
+}
